@@ -80,6 +80,14 @@ def _dump(payload, sub):
         links.append(update_package(title=payload['title']))
     target = payload['target']
     out = os.path.abspath(payload['out'])
+    if payload.get('prior') and not payload.get('redump_from'):
+        # history: an earlier dump of other data (each resource without its first row) went to the same place
+        # (dump_to_zip opens its file when it is constructed: the earlier dumper is built, run and finished first)
+        prior = [T.rows_of(t)[1:] for t in payload['tables']]
+        if any(prior):
+            pd = dump_to_path(out, **opts) if target == 'path' else dump_to_zip(out, **opts)
+            Flow(*(prior + [pd])).process()
+            sub.count('prior_dumps')
     if target == 'path':
         links.append(dump_to_path(out, **opts))
     else:
@@ -182,7 +190,7 @@ class C09(Prop):
     ASSUMPTIONS = ['number of data rows of a csv file = records parsed by the stdlib csv module minus the header; of a json file = length of the top-level array',
                    'package totals are compared with the sums over the resources recorded in the same written descriptor']
     REAL_VS_STUB = {'real': ['dataflows dumpers, csv/json writers, zipfile, the file system'], 'stub': ['ambient environment (TZ, umask, cwd, tempdir) set per dump']}
-    PROBES = ['zip-target', 'json-format', 'counters-renamed', 'counters-dotted', 'counter-disabled', 'filehash-in-path', 'empty-resource', 'multibyte-text', 'multibyte-text-in-descriptor', 'compact-descriptor', 'dumper-drops-invalid-rows', 're-dump-of-a-loaded-package', 'excel-format', 'second-dump-at-a-later-instant']
+    PROBES = ['zip-target', 'json-format', 'counters-renamed', 'counters-dotted', 'counter-disabled', 'filehash-in-path', 'empty-resource', 'multibyte-text', 'multibyte-text-in-descriptor', 'compact-descriptor', 'dumper-drops-invalid-rows', 're-dump-of-a-loaded-package', 'excel-format', 'second-dump-at-a-later-instant', 'earlier-dump-of-other-data-in-the-same-place']
     TIERS = {'quick': dict(runs=700, wall=100, run_wall=300),
              'thorough': dict(runs=20000, wall=1700, run_wall=600)}
     SHRINK_FROZEN = ('fields',)
@@ -232,7 +240,7 @@ class C09(Prop):
             clock[1] = t1
             env2['tz'] = None
         return {'tables': tabs, 'empty': empty, 'opts': opts, 'corrupt': corrupt, 'redump': rng.random() < 0.3 and opts['format'] == 'csv', 'target': rng.choice(['path', 'path', 'zip']),
-                'title': rng.choice([None, None, 'plain', 'Données – 数据 \U0001F600']), 'clock': clock, 'env2': env2}
+                'title': rng.choice([None, None, 'plain', 'Données – 数据 \U0001F600']), 'clock': clock, 'env2': env2, 'prior': rng.random() < 0.25}
 
     def execute(self, sc, ctx):
         if not sc.get('tables'):
@@ -248,6 +256,8 @@ class C09(Prop):
             ctx.probe('json-format')
         if fmt == 'excel':
             ctx.probe('excel-format')
+        if sc.get('prior') and any(len(t['rows']) > 1 for t in sc['tables']):
+            ctx.probe('earlier-dump-of-other-data-in-the-same-place')
         cc = opts.get('counters') or {}
         if any(v and '.' in v for v in cc.values()):
             ctx.probe('counters-dotted')
@@ -276,7 +286,7 @@ class C09(Prop):
             os.chdir(d)
             out = os.path.join(d, 'out' if target == 'path' else 'out.zip')
             r = ctx.subrun(_dump, {'tables': sc['tables'], 'empty': sc.get('empty'), 'opts': opts, 'target': target, 'out': out, 'env': env, 'corrupt': sc.get('corrupt'), 'title': sc.get('title'),
-                                   'clock': (sc.get('clock') or [None, None])[n]})
+                                   'clock': (sc.get('clock') or [None, None])[n], 'prior': sc.get('prior')})
             if r['status'] != 'ok':
                 if n == 0:
                     ctx.discard('dump raises: %s' % json.dumps(r.get('exc'))[:300])
